@@ -1,33 +1,42 @@
 """C02 — outbound packets are spec-conformant and carry what the user supplied: configuration of ./check C02."""
 
-PROP = {'areas': [{'area': 'c02', 'corpus': ['corpus/C02/d3_subscribe_subid.txt', 'corpus/C02/boundaries.txt', 'corpus/C02/trailing_empty.txt'], 'quick': 20000, 'thorough': 1000000},
-           {'area': 'engine', 'quick': 3000, 'thorough': 300000, 'extra': ['100'], 'corpus': ['corpus/engine/d25_connect311_empty_client_id.script'], 'only_prop': 'C02', 'tie_fields': ['out']}],
+PROP = {'areas': [{'area': 'c02',
+            'corpus': ['corpus/C02/d3_subscribe_subid.txt', 'corpus/C02/boundaries.txt', 'corpus/C02/trailing_empty.txt'],
+            'quick': 20000,
+            'thorough': 1000000},
+           {'area': 'engine',
+            'corpus': ['corpus/engine/d25_connect311_empty_client_id.script'],
+            'extra': ['100'],
+            'only_prop': 'C02',
+            'quick': 3000,
+            'thorough': 2000000,
+            'tie_fields': ['out']}],
  'coq_target': 'Properties/C02.vo',
- 'modelled': 'encode.rs Encoder::reset / Encoder::encode / process_encoding_step / encode_vli / compute_variable_length_integer_encode_size and all '
-             'length / step macros; mqtt/{connect,publish,puback,pubrec,pubrel,pubcomp,subscribe,unsubscribe,pingreq,disconnect,auth}.rs '
-             'compute_*_packet_length_properties* and write_*_encoding_steps5/311 (non-test build: CONNACK/SUBACK/UNSUBACK/PINGRESP encoders are '
-             'Unimplemented stubs); the reference side is Codec/SpecDecodeC2S.v, written from the OASIS MQTT 5.0 / 3.1.1 texts',
+ 'modelled': 'encode.rs Encoder::reset / Encoder::encode / process_encoding_step / encode_vli / compute_variable_length_integer_encode_size and all length / '
+             'step macros; mqtt/{connect,publish,puback,pubrec,pubrel,pubcomp,subscribe,unsubscribe,pingreq,disconnect,auth}.rs '
+             'compute_*_packet_length_properties* and write_*_encoding_steps5/311 (non-test build: CONNACK/SUBACK/UNSUBACK/PINGRESP encoders are Unimplemented '
+             'stubs); the reference side is Codec/SpecDecodeC2S.v, written from the OASIS MQTT 5.0 / 3.1.1 texts',
  'not_modelled': 'Vec::with_capacity is assumed to give exactly the requested capacity; usize arithmetic is unbounded (no 64-bit overflow on in-memory '
-                 'lengths); topic / topic-filter grammar and cross-packet rules are outside the reference decoder (C16); '
-                 'ConnectOptions::to_connect_packet (client/config.rs) is not part of this model',
- 'rule': 'cases = structured packets of every kind (every optional field toggled; string / binary lengths from the pool 0/1/127/128/16383/16384/65535, '
-         'small random ones and rarely > 65535; well-formed UTF-8 with boundary code points of every encoded length; 0..15 user properties, 0..23 '
-         'subscriptions / filters; every legal reason code) x protocol version x alias resolution (skip_topic, alias) x 1..5 buffer capacities >= 4 '
-         '(rarely < 4) with random prefill.  The packet text goes to the facade command ENC (the crate\'s Encoder, one call per buffer) and to the '
-         'extracted model (ImplEncode.impl_steps + Steps.encode_call per buffer); bytes / error kind / panic are compared (tie); in a fifth of the cases the capacity list is cut to exactly the number of calls the model needs (or one fewer) and followed by a capacity 3, which makes the NUMBER of encode calls observable (one call too many panics).  Monitor: for packets '
-         'satisfying ValidC2S.valid the extracted reference decoder applied to the IMPLEMENTATION\'s bytes must return ValidC2S.canon of the packet '
-         'with nothing left, and a second run with one large buffer must give the same bytes.  distinct = distinct (packet, version, resolution, '
-         'capacities); non-trivial = valid packet encoded over at least two encode calls'}
+                 'lengths); topic / topic-filter grammar and cross-packet rules are outside the reference decoder (C16); ConnectOptions::to_connect_packet '
+                 '(client/config.rs) is not part of this model',
+ 'rule': 'cases = structured packets of every kind (every optional field toggled; string / binary lengths from the pool 0/1/127/128/16383/16384/65535, small '
+         'random ones and rarely > 65535; well-formed UTF-8 with boundary code points of every encoded length; 0..15 user properties, 0..23 subscriptions / '
+         'filters; every legal reason code) x protocol version x alias resolution (skip_topic, alias) x 1..5 buffer capacities >= 4 (rarely < 4) with random '
+         "prefill.  The packet text goes to the facade command ENC (the crate's Encoder, one call per buffer) and to the extracted model "
+         '(ImplEncode.impl_steps + Steps.encode_call per buffer); bytes / error kind / panic are compared (tie); in a fifth of the cases the capacity list is '
+         'cut to exactly the number of calls the model needs (or one fewer) and followed by a capacity 3, which makes the NUMBER of encode calls observable '
+         "(one call too many panics).  Monitor: for packets satisfying ValidC2S.valid the extracted reference decoder applied to the IMPLEMENTATION's bytes "
+         'must return ValidC2S.canon of the packet with nothing left, and a second run with one large buffer must give the same bytes.  distinct = distinct '
+         '(packet, version, resolution, capacities); non-trivial = valid packet encoded over at least two encode calls'}
 
 META = {'design_ref': 'DESIGN.md section 7 / C02',
- 'level_note': 'Trusted: Coq kernel; the tie (facade ENC, harness, OCaml driver); Prim.utf8_ok as the definition of well-formed UTF-8 (shared by the '
-               'validity predicate and the reference decoder); the reference decoder is the author\'s reading of the OASIS texts.',
- 'level_text': 'Coq theorems over a line-by-line model of the step encoder and of every packet encoder: C02_fragmentation (one Encoder::encode call '
-               'emits a prefix of the unfragmented byte string and leaves steps producing the rest, for every fill <= capacity >= 4; progress when 4 '
-               'bytes are free; any call sequence that finishes emits exactly flatten steps), and per packet kind and protocol version: valid packet '
-               '-> the encoder succeeds and the independent reference decoder returns the canonical form of the packet with no bytes left. '
-               'SUBSCRIBE (MQTT5) with a subscription identifier was refuted on the code before /repo commit d62c54a (D3) and is proved for the '
-               'repaired encoder. The model is run '
-               'against the crate\'s encoder on generated packets on every check.',
+ 'level_note': 'Trusted: Coq kernel; the tie (facade ENC, harness, OCaml driver); Prim.utf8_ok as the definition of well-formed UTF-8 (shared by the validity '
+               "predicate and the reference decoder); the reference decoder is the author's reading of the OASIS texts.",
+ 'level_text': 'Coq theorems over a line-by-line model of the step encoder and of every packet encoder: C02_fragmentation (one Encoder::encode call emits a '
+               'prefix of the unfragmented byte string and leaves steps producing the rest, for every fill <= capacity >= 4; progress when 4 bytes are free; '
+               'any call sequence that finishes emits exactly flatten steps), and per packet kind and protocol version: valid packet -> the encoder succeeds '
+               'and the independent reference decoder returns the canonical form of the packet with no bytes left. SUBSCRIBE (MQTT5) with a subscription '
+               'identifier was refuted on the code before /repo commit d62c54a (D3) and is proved for the repaired encoder. The model is run against the '
+               "crate's encoder on generated packets on every check.",
  'technique': 'machine-checked proof in Coq (round-trip lemmas per wire primitive composed per packet; induction over step lists) + differential '
               'correspondence of the extracted model with the implementation, reference decoder as monitor'}
